@@ -42,7 +42,8 @@ def floors(tier):
     return {"evaluations": 30 if q else 300, "distinct_nontrivial": 10 if q else 100, "cut_short": 8 if q else 80, "completed": 10 if q else 100,
             "path:sequential": 10 if q else 100, "path:parallel": 6 if q else 60, "workers_killed": 10 if q else 200, "reported_cycles_verified": 20 if q else 300,
             "timeout:0": 3, "timeout:1": 3, "timeout:2": 3, "timeout:-1": 3, "timeout:120": 3, "no_child_left_checked": 30 if q else 300,
-            "monitor:clock_polls": 30, "tp_cp_compared": 30 if q else 300}
+            "monitor:clock_polls": 30, "tp_cp_compared": 30 if q else 300, "virtual_strikes": 40 if q else 600,
+            "completeness_checked_by_own_enumeration": 15 if q else 200}
 
 
 def plan(tier, seed):
@@ -53,6 +54,8 @@ def plan(tier, seed):
         specs.append({"kind": "dense", "isa": "x86" if i % 3 != 2 else "aarch64", "below": i % 2 == 0, "cases": 1 if q else 3})
     for i in range(4 if q else 12):
         specs.append({"kind": "ordinary", "isa": "x86" if i % 2 == 0 else "aarch64", "cases": 3 if q else 8})
+    for i in range(4 if q else 16):
+        specs.append({"kind": "virtual", "isa": "x86" if i % 2 == 0 else "aarch64", "cases": 2 if q else 6})
     return specs
 
 
@@ -70,6 +73,8 @@ class Probes:
         self.events = []
         self.clock_polls = 0
         self.first_clock = self.last_clock = None
+        self.virtual = False
+        self.vnow = 0.0
         self.deadline = None
         self.search_start = None
         self.paths = 0
@@ -81,6 +86,14 @@ class Probes:
 
         class TimeProxy:
             def time(self_):
+                if probe.virtual:
+                    # virtual time: one tick per look at the clock, so that the timeout strikes at a chosen logical step
+                    probe.vnow += 1.0
+                    probe.clock_polls += 1
+                    if probe.first_clock is None:
+                        probe.first_clock = probe.vnow
+                    probe.last_clock = probe.vnow
+                    return probe.vnow
                 t = real_time.time()
                 probe.clock_polls += 1
                 if probe.first_clock is None:
@@ -90,6 +103,9 @@ class Probes:
 
             def sleep(self_, s):
                 probe.events.append(("sleep", s))
+                if probe.virtual:
+                    probe.vnow += s
+                    return None
                 return real_time.sleep(s)
 
             def __getattr__(self_, n):
@@ -168,13 +184,14 @@ class Probes:
 
     def reset(self, timeout):
         self.events = []
+        self.vnow = 0.0
         self.clock_polls = 0
         self.first_clock = self.last_clock = None
         self.paths = 0
         self.first_path = self.last_path = None
         self.search_start = None
         self.instances = []
-        self.deadline = None if timeout < 0 else time.time() + 3 * timeout + ABORT_MARGIN
+        self.deadline = None if timeout < 0 else time.time() + ((3 * timeout + ABORT_MARGIN) if not self.virtual else 120)
 
     def close(self):
         self.kd.time, self.kd.os, self.kd.Process, self.nx.algorithms.simple_paths.all_simple_paths, self.o.KernelDG = self._saved
@@ -284,6 +301,34 @@ def verify_cycles(inst, R, case):
     return len(inst.loopcarried_deps)
 
 
+def own_cycles(inst, flags=False):
+    """Independent enumeration (R-graph) of the cross-iteration cycles of the analysed kernel: {key string: latency}."""
+    import copy
+    from .. import ref_graph as RG
+
+    kernel = inst.kernel
+    n = len(kernel)
+    shift = max(f.line_number for f in kernel) + 1
+    k2 = list(kernel)
+    for f in kernel:
+        c = copy.copy(f)
+        c.line_number += shift
+        k2.append(c)
+    g2 = inst.create_DG(k2, flags)
+    idx = {f.line_number: i for i, f in enumerate(kernel)}
+    for f in kernel:
+        idx[f.line_number + shift] = idx[f.line_number] + n
+    edges = {}
+    for u, v, d in g2.edges(data=True):
+        if int(u) == u and int(v) == v:
+            edges[(idx[u], idx[v])] = round(float(d["latency"]), 6)
+    cyc = RG.cycles_winding_one(n, edges)
+    out = {}
+    for members, lat in cyc.items():
+        out["-".join(str(kernel[m[0]].line_number) for m in members)] = round(lat, 6)
+    return out
+
+
 def one_run(probes, arch, fn, timeout, R, case, reference=None, expect_complete=False):
     """Run the real CLI with the given timeout under all monitors and judge it."""
     before = set(children())
@@ -305,7 +350,7 @@ def one_run(probes, arch, fn, timeout, R, case, reference=None, expect_complete=
 
     if timeout >= 0:
         old = signal.signal(signal.SIGALRM, on_alarm)
-        signal.setitimer(signal.ITIMER_REAL, 3 * timeout + ABORT_MARGIN)
+        signal.setitimer(signal.ITIMER_REAL, (3 * timeout + ABORT_MARGIN) if not probes.virtual else 120)
     try:
         report = run_cli(["--arch", arch, "--lcd-timeout", str(timeout), "--ignore-unknown", fn])
     except SearchNotStopped as e:
@@ -327,7 +372,7 @@ def one_run(probes, arch, fn, timeout, R, case, reference=None, expect_complete=
             signal.setitimer(signal.ITIMER_REAL, 0)
             signal.signal(signal.SIGALRM, old)
     wall = time.time() - t0
-    R.count("timeout:%s" % timeout)
+    R.count("timeout:%s" % (timeout if timeout in (-1, 0, 1, 2, 120) else "virtual"))
     R.count("monitor:clock_polls", probes.clock_polls)
     time.sleep(0.3)
     left = [c for c in children() if c not in before]
@@ -390,6 +435,19 @@ def one_run(probes, arch, fn, timeout, R, case, reference=None, expect_complete=
                 R.violation("reported-cycle-not-in-untimed-result", "a reported cycle is not part of the untimed result", case)
     if expect_complete and inst.timed_out:
         R.violation("warning/with-generous-timeout", "search reported as timed out with timeout %s" % timeout, case)
+    if expect_complete and not inst.timed_out:
+        try:
+            with time_limit(60):
+                own = own_cycles(inst)
+        except (CaseTimeout, OverflowError):
+            own = None
+        if own is not None:
+            R.count("completeness_checked_by_own_enumeration")
+            mine = {k: round(float(v["latency"]), 6) for k, v in inst.loopcarried_deps.items()}
+            lost = sorted(set(own) - set(mine))
+            if lost:
+                R.violation("incomplete-without-warning/%s" % case.get("path", "?"), "timeout %s, no warning, but the cycles %s of the kernel are not reported (%d reported, %d exist)"
+                            % (timeout, lost[:4], len(mine), len(own)), case)
     R.observe("post_processing_s", int(max(0.0, (t0 + wall) - (probes.last_path or t0))))
     R.case(digest([case.get("kernel_id"), timeout]), nontrivial=(inst.timed_out or ncyc >= 2))
     return {"view": view, "lcd": {k: round(float(v["latency"]), 6) for k, v in inst.loopcarried_deps.items()}, "timed_out": inst.timed_out, "wall": wall,
@@ -470,6 +528,9 @@ def run_ordinary(spec, R, probes, d):
         # long kernels must stay sparse enough for the complete (-1) search to be feasible
         pool = D.Pool(krng, isa, ng=3, nv=3) if n < 50 else D.Pool(krng, isa, ng=12, nv=14)
         lines = [D.instantiate_curated(krng, isa, krng.choice(vocab), pool)["text"] for _ in range(n)]
+        # loops end with pointer and counter updates: self-dependent instructions on the last lines
+        lines += (["addq $64, %rax", "subq $1, %rcx"] if isa == "x86" else ["add x1, x1, #64", "sub x2, x2, #1"])
+        n = len(lines)
         fn = os.path.join(d, "ord%d.s" % c)
         open(fn, "w").write("\n".join(lines) + "\n")
         kid = digest(lines)
@@ -493,11 +554,53 @@ def run_ordinary(spec, R, probes, d):
         one_run(probes, arch, fn, krng.choice([0, 1, 2]), R, dict(base, timeout="small"), reference=full)
 
 
+def run_virtual(spec, R, probes, d):
+    """In-process search under a virtual clock (one tick per look at the clock): the timeout is made to strike at sampled logical
+    steps over the whole search, in particular inside the search of the last instructions. Whatever is cut short must be flagged."""
+    rng = random.Random(spec["seed"])
+    isa = spec["isa"]
+    arch = rng.choice(["zen2", "zen1"]) if isa == "x86" else rng.choice(["tx2", "n1"])
+    vocab = D.curated_vocab(isa)
+    for c in range(spec["cases"]):
+        krng = random.Random(rng.getrandbits(48))
+        pool = D.Pool(krng, isa, ng=3, nv=3)
+        n = krng.choice([6, 9, 12, 16])
+        lines = [D.instantiate_curated(krng, isa, krng.choice(vocab), pool)["text"] for _ in range(n)]
+        lines += (["addq $64, %rax", "subq $1, %rcx"] if isa == "x86" else ["add x1, x1, #64", "sub x2, x2, #1"])
+        fn = os.path.join(d, "virt%d.s" % c)
+        open(fn, "w").write("\n".join(lines) + "\n")
+        base = {"kind": "virtual", "isa": isa, "arch": arch, "lines": len(lines), "kernel_id": digest(lines), "path": "sequential", "kernel": "\n".join(lines)}
+        try:
+            with time_limit(90):
+                full = one_run(probes, arch, fn, -1, R, dict(base, timeout=-1), expect_complete=True)
+        except CaseTimeout:
+            R.inconclusive += 1
+            R.case()
+            continue
+        if not full:
+            continue
+        # how many looks at the clock does the complete search take?
+        probes.virtual = True
+        try:
+            big = 10 ** 9
+            r0 = one_run(probes, arch, fn, big, R, dict(base, timeout="virtual-generous"), reference=full, expect_complete=True)
+            polls = probes.clock_polls
+            if not r0 or polls < 3:
+                continue
+            strikes = sorted(set([1, 2, polls - 1, polls - 2, polls - 3, polls - 5] + [krng.randrange(1, polls) for _ in range(10)]))
+            for t in [x for x in strikes if 0 < x < polls]:
+                r = one_run(probes, arch, fn, t, R, dict(base, timeout=t, virtual=True), reference=full)
+                R.count("virtual_strikes")
+                R.observe("virtual_strike_fraction", "%d%%" % (100 * t // polls // 10 * 10))
+        finally:
+            probes.virtual = False
+
+
 def run_shard(spec, R):
     probes = Probes()
     try:
         with gen_model.ScratchDir("c19") as d:
-            {"dense": run_dense, "longlcd": run_longlcd, "ordinary": run_ordinary}[spec["kind"]](spec, R, probes, d)
+            {"dense": run_dense, "longlcd": run_longlcd, "ordinary": run_ordinary, "virtual": run_virtual}[spec["kind"]](spec, R, probes, d)
     finally:
         probes.close()
 
